@@ -444,7 +444,7 @@ def fields(line):
 
 def run_both(drv, orc, cases, nchunks=4):
     groups = [(kline(c), list(c["configs"])) for c in cases]
-    obs = core.run_grouped_parallel(drv, groups, nchunks=nchunks, timeout=3600)
+    obs = core.run_grouped_parallel(drv, groups, nchunks=nchunks, timeout=3600, max_restarts=8)   # hangs end through the CPU-time watchdog of harness/common.h
     ogroups = []
     for c, (h, ops), (ha, answers) in zip(cases, groups, obs):
         H = fields(ha or "")
